@@ -55,7 +55,14 @@ def run_abi(chk, wd, abi, thorough, nsample):
                    ["-DVM_MAX_FUNCS=400", "-I" + gdir, "-DGENHASH=%d" % gh, "-DC08_ABI=vm_abi_" + abi], "-O1")
     tpath = os.path.join(wd, "c08_%s.ndjson" % abi)
     p = vp.run([drv, tpath, str(vp.seed())], timeout=1100)
-    if p.returncode != 0:
+    if p.returncode < 0:
+        # the executor died on a signal (an abort escaping as std::terminate, a fault) while driving the real
+        # headers through struct copies: an observation - what was recorded so far is still judged below
+        evs = vp.read_ndjson(tpath)
+        chk.violation("struct driver [%s ABI] died (rc=%d) after %d events: %s" %
+                      (abi, p.returncode, len(evs), p.stderr[-200:].strip().replace("\n", " ")),
+                      {"abi": abi, "rc": p.returncode, "last_event": {k: v for k, v in (evs[-1] if evs else {}).items() if k != "fields"}})
+    elif p.returncode != 0:
         raise vp.Broken("c08_driver(%s) rc=%d %s" % (abi, p.returncode, p.stderr[-300:]))
     events = vp.read_ndjson(tpath)
     rr = vp.tlc(os.path.join(vp.SPEC, "Trace_Layout.tla"), os.path.join(vp.SPEC, "Trace_Layout.cfg"), workers=1,
@@ -84,6 +91,8 @@ def run(tier):
     if any(r is None for r in results):
         return chk.finish()
     events = [e for r in results for e in r[0]]
+    if not events and chk.violations:
+        return chk.finish()          # every driver died before its first event: nothing else to report
     nstructs = sum(len(r[1]) for r in results)
     structs, edges, walks = results[0][1], [e for r in results for e in r[2]], [w for r in results for w in r[3]]
     chk.count(evaluations=len(events), distinct=nstructs + len(edges), traces=nstructs)
